@@ -30,6 +30,8 @@ impl<'a> NoUnusedVariables<'a> {
         used: &mut HashSet<&'a str>,
         visited: &mut HashSet<Scope<'a>>,
     ) {
+        #[cfg(async_graphql_verif)]
+        crate::verif_hooks::count("no_unused_variables");
         if visited.contains(from) {
             return;
         }
